@@ -10,10 +10,13 @@ import (
 	"os"
 	"os/exec"
 	"path/filepath"
+	"runtime"
 	"runtime/debug"
 	"sort"
+	"strconv"
 	"strings"
 	"sync"
+	"sync/atomic"
 	"time"
 
 	"verif/drv"
@@ -43,6 +46,63 @@ type Run struct {
 	shardMode         bool
 	shardViol         []shardViolation
 	shardKeys         map[string]int
+	// CurNote / CurBytes optionally describe the case about to run (read by the watchdog only)
+	CurNote  string
+	CurBytes []byte
+}
+
+// WatchTicks is the number of consecutive one-second ticks without any progress (no evaluation, no
+// transition) after which the enumerating goroutine is taken to be stuck inside the code under test.
+var WatchTicks = 240
+
+// Watch starts a watchdog over the enumerating goroutine and returns the function that stops it. Ticks are
+// counted, not wall-clock differences (a machine suspended for an hour adds one tick). When it fires, the
+// case in progress did not terminate: that is reported as a violation, the remaining cases as unexplored,
+// and the process ends the way it would have ended (shard dump or exit code).
+func (r *Run) Watch() (stop func()) {
+	done := make(chan struct{})
+	ticks := WatchTicks
+	if v, err := strconv.Atoi(os.Getenv("VERIF_WATCH_TICKS")); err == nil && v > 0 {
+		ticks = v // self-test of the watchdog
+	}
+	go func() {
+		last := atomic.LoadInt64(&r.Evals) + atomic.LoadInt64(&r.Transitions)
+		idle := 0
+		tk := time.NewTicker(time.Second) // one allocation up front: C07 counts allocations process-wide
+		defer tk.Stop()
+		for {
+			select {
+			case <-done:
+				return
+			case <-tk.C:
+			}
+			now := atomic.LoadInt64(&r.Evals) + atomic.LoadInt64(&r.Transitions)
+			if now != last {
+				last, idle = now, 0
+				continue
+			}
+			idle++
+			if idle < ticks {
+				continue
+			}
+			desc := fmt.Sprintf("after %d completed evaluations", atomic.LoadInt64(&r.Evals))
+			if r.CurNote != "" || r.CurBytes != nil {
+				desc += fmt.Sprintf("; case in progress: %s %x", r.CurNote, r.CurBytes)
+			}
+			r.Violation("", "no-termination", fmt.Sprintf("the code under test did not return within %d one-second ticks on one case (%s); the cases after it were not explored", ticks, desc), map[string]interface{}{"note": r.CurNote, "bytes": fmt.Sprintf("%x", r.CurBytes), "stacks": allStacks()})
+			r.Cap("a case did not terminate; remaining cases unexplored")
+			if r.shardMode {
+				r.FinishShard()
+			}
+			r.Exit()
+		}
+	}()
+	return func() { close(done) }
+}
+
+func allStacks() string {
+	buf := make([]byte, 1<<16)
+	return string(buf[:runtime.Stack(buf, true)])
 }
 
 // New starts a run.
@@ -325,7 +385,9 @@ func Sharded(r *Run, n int, body func(r *Run, shard, nshards int)) {
 		var i, nn int
 		fmt.Sscanf(spec, "%d/%d", &i, &nn)
 		r.shardMode = true
+		stop := r.Watch()
 		r.guarded(func() { body(r, i, nn) })
+		stop()
 		d := shardDump{Evals: r.Evals, Transitions: r.Transitions, Samples: r.Samples, Caps: r.Caps, Counters: r.counters, Violations: r.shardViol, Extra: r.Extra}
 		for h := range r.distinct {
 			d.Distinct = append(d.Distinct, h)
@@ -346,7 +408,9 @@ func Sharded(r *Run, n int, body func(r *Run, shard, nshards int)) {
 		os.Exit(0)
 	}
 	if n <= 1 {
+		stop := r.Watch()
 		r.guarded(func() { body(r, 0, 1) })
+		stop()
 		return
 	}
 	tmp := filepath.Join(drv.VerifDir(), ".build", "tmp")
